@@ -139,7 +139,8 @@ def app_case(seed, nreq=40, ncallers=5, rounds=3, judge="dispatch"):
             mk = N.marker_of(m)
             by_ids = [k for k, (c, lm) in reqs.items() if (lm.hbh, lm.e2e) == (m.hbh, m.e2e)]
             if len(by_ids) != 1:
-                problems.append(("both", "a message with identifiers (%d, %d) matches %d requests" % (m.hbh, m.e2e, len(by_ids))))
+                problems.append(("both", "a message with identifiers (%d, %d) matches %d requests: flags %#x code %d app %d marker %r result %r session %r" % (
+                    m.hbh, m.e2e, len(by_ids), m.flags, m.code, m.app_id, mk, [a.value.hex() for a in m.avps if a.code == 268], [a.value for a in m.avps if a.code == 263])))
                 continue
             k = by_ids[0]
             seen[k] = seen.get(k, 0) + 1
